@@ -80,11 +80,29 @@ def check_sanitizer(ctx, facts, fn_name="wal::config::sanitize_namespace"):
     ctx.saw_body(fn)
     F = common.short_fn(fn.name)
     clo, map_site = find_map_closure(facts, fn)
+    mapfn = fn
     if clo is None:
-        ctx.anchor_missing("C14.1", "sanitizer map closure", "sanitize_namespace no longer maps its characters through a closure passed to Iterator::map; CHARABS has nothing to interpret")
+        # the character mapping may live in a helper that sanitize_namespace calls with its key
+        for c_ in fn.calls():
+            hb = facts.bodies.get(c_.node.get("callee") or "") or next((bb_ for nn, bb_ in facts.bodies.items() if strip_generics(nn) == strip_generics(c_.node.get("callee") or "")), None)
+            if hb is None or hb.j.get("derived") or not str(hb.j.get("ret_ty", "")).endswith("String"):
+                continue
+            hclo, hsite = find_map_closure(facts, hb)
+            if hclo is None:
+                continue
+            asrc, _, _ = origins(fn, c_.node["args"][0]) if c_.node["args"] else (set(), None, None)
+            if origin_calls(asrc) or len(origin_args(asrc)) != 1:
+                ctx.violate("C14.1", F, "map-source", fn.relfile, c_.line, "the mapping helper %s is not applied to the key argument itself" % common.short_fn(hb.name))
+            clo, map_site, mapfn = hclo, hsite, hb
+            ctx.saw_body(hb)
+            break
+    if clo is None:
+        ctx.anchor_missing("C14.1", "sanitizer map closure", "sanitize_namespace no longer maps its characters through a closure passed to Iterator::map (itself or in a helper it calls); CHARABS has nothing to interpret")
         return
     ctx.saw_body(clo)
     # the mapped iterator must be the chars() of the key argument and the result collect()ed
+    fn_outer = fn
+    fn = mapfn
     src, _, _ = origins(fn, map_site.node["args"][0])
     chars_calls = [o for o in src if o.kind == "call" and re.search(r"str>?::chars$", o.what)]
     ok_src = False
@@ -123,6 +141,7 @@ def check_sanitizer(ctx, facts, fn_name="wal::config::sanitize_namespace"):
         else:
             ctx.ok("C14.1", F, "image excludes %s" % nm, clo.relfile, clo.line, "decided over %d atoms" % len(img))
     nonascii_ok = all((not isinstance(r, Sym)) or True for r in image)
+    fn = fn_outer
     # C14.2 ---------------------------------------------------------------------------
     ret_local = None
     # find the local returned: `_0 = move _X`
@@ -170,10 +189,21 @@ def check_sanitizer(ctx, facts, fn_name="wal::config::sanitize_namespace"):
         true_tgt = t["otherwise"]
         fb_blocks = []
         fb_sites = []
-        for site, kind, node in fn.defs.get(ret_local, []):
-            if kind == "assign" and fn.dominates(true_tgt, site.bb) and not fn.is_cleanup(site.bb):
-                fb_blocks.append(site.bb)
-                fb_sites.append((site, node))
+        # the fallback may be assigned to the returned local or returned directly (`return format!(..)`)
+        ret_locals = {op_local(st_["rv"]["op"]) for s_, st_ in fn.assigns() if st_["place"]["l"] == 0 and not st_["place"]["p"] and st_["rv"]["k"] == "use"} - {None}
+        for rl in sorted(ret_locals):
+            for site, kind, node in fn.defs.get(rl, []):
+                if fn.dominates(true_tgt, site.bb) and not fn.is_cleanup(site.bb):
+                    fb_blocks.append(site.bb)
+                    if kind == "assign":
+                        fb_sites.append((site, node))
+                    else:
+                        # defined by a call (std::fmt::format): judge the call's own operands
+                        fb_sites.append((site, {"rv": {"k": "use", "op": {"k": "copy", "place": {"l": rl, "p": []}}}, "line": node.get("line")}))
+        for c_ in fn.calls():
+            if c_.node["dest"]["l"] == 0 and not c_.node["dest"]["p"] and fn.dominates(true_tgt, c_.bb) and not fn.is_cleanup(c_.bb):
+                fb_blocks.append(c_.bb)
+                fb_sites.append((c_, {"rv": {"k": "use", "op": {"k": "copy", "place": {"l": 0, "p": []}}}, "line": c_.line}))
         rets = fn.return_blocks()
         if not fb_blocks or not fn.must_pass([sw_bb], rets, fb_blocks, removed_edges=[(sw_bb, x[1]) for x in t["targets"]]):
             ctx.violate("C14.2", F, "fallback-not-assigned", fn.relfile, t["line"],
@@ -233,6 +263,15 @@ PUSH_RE = re.compile(r"^std::path::(PathBuf::push|Path::join|PathBuf::set_file_n
 def classify_component(facts, body, op):
     src, _, _ = origins(body, op, passthrough_extra=[r"^std::fmt::format$", r"fmt::Arguments.*::new", r"Argument.*::new_display$"])
     calls = origin_calls(src)
+    # `opt.map(sanitize_namespace)` applies the sanitizer to the payload: count it as the sanitizer's result
+    mapped = set()
+    for o in src:
+        if o.kind == "call" and re.search(r"Option(::<[^>]*>)?::map$", strip_generics(o.what)) and o.site is not None and len(o.site.node["args"]) == 2:
+            f = o.site.node["args"][1]
+            if f.get("k") == "const" and str(f.get("fn", "")).endswith("config::sanitize_namespace"):
+                mapped.add(o.what)
+    if mapped:
+        calls = {c for c in calls if c not in mapped} | {"wal::config::sanitize_namespace"}
     if calls and all(re.search(r"config::sanitize_namespace$", c) for c in calls):
         return "sanitize", src
     if calls and all(re.search(r"config::now_millis_str$", c) for c in calls):
@@ -310,6 +349,10 @@ def check_path_builders(ctx, facts):
                     cs = call_site_of(body, {"k": "copy", "place": {"l": l, "p": []}})
                     if cs is not None:
                         cn = strip_generics(callee_name(cs.node))
+                        if re.search(r"Option::(map|as_deref|as_ref|as_mut|copied|cloned|inspect)$|Result::(ok|map|as_ref|as_deref)$", cn) and cs.node["args"]:
+                            # adaptors that keep Some-ness: `no key supplied` is decided by their receiver
+                            l = op_local(body.resolve_copy(cs.node["args"][0]))
+                            continue
                         ok_b = bool(re.search(r"(config|paths)::thread_namespace$|^std::env::var$|::thread_namespace$", cn))
                         break
                     sd = body.single_def(l)
